@@ -20,9 +20,9 @@ META = {
         'were lost); R3 every _export_metadata(rowid, T) passes a sanitized table name T and a rowid that is the rowid column '
         'of T in the query row it was unpacked from; R4 every query the exporter issues is scoped by the one-tuple of the '
         'exported lexicon rowid (C04-R2); R5 export() runs _precheck before building anything and writes through lmf.dump; '
-        'R8 no comparison in the exporter tests a stored value against a constant (the exported content of an element does not depend on its part of speech, type, ...).'),
+        'R9 a synset\'s members and an entry\'s senses are drawn per owner from the rank-ordered queries; R8 no comparison in the exporter tests a stored value against a constant (the exported content of an element does not depend on its part of speech, type, ...).'),
     'decides': ['exporter key coverage', 'version-guard consistency', 'metadata provenance', 'single-lexicon scoping', 'precheck first',
-                'exporter never switches on stored values'],
+                'exporter never switches on stored values', 'declared order of members / senses exported'],
     'not_decided': ['value-level reconstruction (e.g. ili="in" for a proposed ILI without definition)', 'equality of re-imported databases'],
     'assumptions': [],
 }
@@ -645,6 +645,50 @@ def r8_value_independent(ctx, res):
         raise AnalysisError(f'only {n} comparisons found in wn/_export.py')
 
 
+# ---------------------------------------------------------------------------
+# R9: ordered parts are exported in their stored order
+
+ORDERED_SOURCES = {
+    # (exporter function, what) -> the rank-ordered query the items must be drawn from, one per owner row
+    ('_export_synsets', 'members'): 'get_synset_members',
+    ('_export_senses', 'senses'): 'get_entry_senses',
+}
+
+
+def r9_declared_order(ctx, res):
+    """the order of a synset's members and of an entry's senses is part of the lexicon (WN-LMF: `members` attribute, document
+    order of <Sense>): the exporter draws them, per owner row, from the queries that ORDER BY the stored rank
+    (get_synset_members: synset_rank; get_entry_senses: entry_rank - the ORDER BY itself is C01-R5) and not from a bulk
+    query without an order.  Decided on the effect summaries of the exporter."""
+    import re as _re
+    from ..speccheck import view, as_loop
+    v = view(ctx, '_export', '_export_synsets')
+    key = 'declared-order:Synset.members'
+    stores = [r for r in v.rows if r[0] == 'store' and _re.match(r"#\d+\['members'\] = ", r[1])]
+    res.inst(key, v.loc(), f'{len(stores)} store(s) of members')
+    if len(stores) != 1:
+        raise AnalysisError('anchor vanished: the store of Synset.members in _export_synsets')
+    val = stores[0][1].split(' = ', 1)[1]
+    lp = as_loop(v, val)
+    outer = [c for c in stores[0][3] if c.startswith('for find_synsets(')]
+    ok = lp is not None and len(lp[1]) == 1 and not lp[2] and bool(outer) \
+        and _re.fullmatch(r'for get_synset_members\(\$1\[4\], lexids\)', lp[1][0]) is not None \
+        and _re.fullmatch(r'(\$\d+|_\d+)\[0\]', lp[0].replace('$1[', '$9[') if False else lp[0]) is not None
+    if not ok:
+        res.find(key, v.loc(stores[0][4]), f'Synset.members is exported as `{val[:90]}`: not the ids of get_synset_members(<rowid of this synset>, lexids) '
+                                          f'in query order - the declared member order (synset_rank) is not what a re-import sees')
+    v2 = view(ctx, '_export', '_export_senses')
+    key = 'declared-order:LexicalEntry.senses'
+    apps = [r for r in v2.rows if r[0] == 'call' and _re.fullmatch(r'#1\.append\(#\d+\)', r[1])]
+    res.inst(key, v2.loc(), f'{len(apps)} append(s) to the sense list')
+    rets = [r for r in v2.rows if r[0] == 'return']
+    ok = len(apps) == 1 and tuple(apps[0][3]) == ('for get_entry_senses(entry_rowid, lexids)',) and not apps[0][2] \
+        and len(rets) == 1 and rets[0][1] == '#1'
+    if not ok:
+        res.find(key, v2.loc(), f'the senses of an entry are no longer exported in the order of get_entry_senses(entry_rowid, lexids) (entry_rank): '
+                                f'{[(r[1][:50], list(r[3])) for r in apps][:2]}')
+
+
 RULES = [
     ('C03-R1', r1_coverage, 75),
     ('C03-R2', r2_guard_consistency, 3),
@@ -654,4 +698,5 @@ RULES = [
     ('C03-R6', r6_proposed_ili_marker, 3),
     ('C03-R7', r7_no_shared_records, 3),
     ('C03-R8', r8_value_independent, 8),
+    ('C03-R9', r9_declared_order, 2),
 ]
